@@ -119,7 +119,7 @@ func runC08(r *ev.Run) {
 	if r.Thorough() {
 		depth = 4
 	}
-	r.Rule = fmt.Sprintf("every sequence of length <=%d (quick tier: every sequence of length 2, and of length 3 over the 8 operations that move pages, roots or definitions) over an alphabet of %d write transactions committed by a real SQLite connection in another process (insert, update, delete, bulk insert growing the file past its size at Open, delete+VACUUM shrink, VACUUM to another page size, create/drop table, create/drop index, ALTER TABLE ADD COLUMN, drop+recreate a table under the same name, WITHOUT ROWID change, incremental_vacuum) from 3 base databases (8 pages, auto_vacuum; 300+ pages > the 100 page cache with sequences one step shorter); handles opened at depth 0 and at every later depth; after every step every open handle is read through the high level API and through the low level API inside RLock/RUnlock, twice; oracle: equals SQLite's dump of the file at that moment and a freshly opened handle's dump. non-trivial = sequences containing a write that changes the file", depth, len(c08Alphabet))
+	r.Rule = fmt.Sprintf("every sequence of length <=%d (quick tier: every sequence of length 2, and of length 3 over the 8 operations that move pages, roots or definitions) over an alphabet of %d write transactions committed by a real SQLite connection in another process (insert, update, delete, bulk insert growing the file past its size at Open, delete+VACUUM shrink, VACUUM to another page size, create/drop table, create/drop index, ALTER TABLE ADD COLUMN, drop+recreate a table under the same name, WITHOUT ROWID change, incremental_vacuum) from 3 base databases (8 pages, auto_vacuum; 300+ pages > the 100 page cache with sequences one step shorter); handles opened at depth 0 and at every later depth, plus at every depth two handles whose first transaction comes only after the next commit (one starting with the high level API, one with RLock + low level reads) and one opened at depth 0 that is first read after the last commit; after every step every awake handle is read through the high level API and through the low level API inside RLock/RUnlock, twice; oracle: equals SQLite's dump of the file at that moment and a freshly opened handle's dump. non-trivial = sequences containing a write that changes the file", depth, len(c08Alphabet))
 	r.Set("depth", depth)
 	dir := ev.TmpDir("c08")
 	defer os.RemoveAll(dir)
@@ -239,6 +239,10 @@ func c08Sequence(r *ev.Run, p *Peer, dir string, w, n int, baseName string, base
 	r.Eval(1)
 	var handles []*Env
 	var openedAt []int
+	// wakeAt[i]: the first step at which handle i is read at all (a handle opened before a commit whose
+	// first transaction comes after it); lowFirst[i]: its reads start with the low level API
+	var wakeAt []int
+	var lowFirst []bool
 	defer func() {
 		for _, h := range handles {
 			h.H.Close()
@@ -252,6 +256,16 @@ func c08Sequence(r *ev.Run, p *Peer, dir string, w, n int, baseName string, base
 		}
 		handles = append(handles, e)
 		openedAt = append(openedAt, at)
+		wakeAt = append(wakeAt, at)
+		lowFirst = append(lowFirst, false)
+		return true
+	}
+	openDormant := func(at, wake int, low bool) bool {
+		if !openHandle(at) {
+			return false
+		}
+		wakeAt[len(wakeAt)-1] = wake
+		lowFirst[len(lowFirst)-1] = low
 		return true
 	}
 	changed := false
@@ -268,6 +282,17 @@ func c08Sequence(r *ev.Run, p *Peer, dir string, w, n int, baseName string, base
 		}
 		if !openHandle(step) {
 			return
+		}
+		if step < len(seq) {
+			// opened now, first transaction only after the next commit (and, from the start, after the last one)
+			if !openDormant(step, step+1, false) || !openDormant(step, step+1, true) {
+				return
+			}
+			if step == 0 && len(seq) >= 2 {
+				if !openDormant(0, len(seq), false) {
+					return
+				}
+			}
 		}
 		st, want := p.Do("dump")
 		if st != "ok" {
@@ -290,10 +315,15 @@ func c08Sequence(r *ev.Run, p *Peer, dir string, w, n int, baseName string, base
 			return
 		}
 		for hi, h := range handles {
-			a2 := map[string]interface{}{"base": baseName, "sequence": names[:step], "handle_opened_after_step": openedAt[hi]}
+			if wakeAt[hi] > step {
+				continue
+			}
+			a2 := map[string]interface{}{"base": baseName, "sequence": names[:step], "handle_opened_after_step": openedAt[hi], "first_read_at_step": wakeAt[hi], "low_level_first": lowFirst[hi]}
 			age := "long-lived"
 			if openedAt[hi] == step {
 				age = "fresh"
+			} else if wakeAt[hi] == step {
+				age = "first-read"
 			}
 			for rep := 0; rep < 2; rep++ {
 				r.Trans(2)
@@ -302,6 +332,11 @@ func c08Sequence(r *ev.Run, p *Peer, dir string, w, n int, baseName string, base
 				var low string
 				var lerr error
 				if p := Safely(func() {
+					if lowFirst[hi] && rep == 0 {
+						low, lerr = lowDump(h.D)
+						got, err = LittleDump(h.H, h.D)
+						return
+					}
 					got, err = LittleDump(h.H, h.D)
 					if err == nil {
 						low, lerr = lowDump(h.D)
